@@ -109,6 +109,7 @@ FIXED = [
     ('C02', '7a6965a', 'F39 compliance list actions skipped a GROUP whose identifier is the number 0', 'C02.R1'),
     ('C15', '0887a9a', 'F41 DISPLAY-HINT and PRODUCT-RELEASE texts bypassed the text filter (multi-line text -> '
      'invalid one-line literal, not whitespace-normalised in JSON)', 'C15.R3'),
+    ('C14', '5d629b6', 'F42 nested ZIP archives unreadable: FileLike lacked seekable() which zipfile requires', 'C14.R5'),
     ('C10', '121bb88', 'F35 noDeps excluded a requested module served from a differently named file', 'C10.R2'),
 ]
 
